@@ -169,7 +169,21 @@ extern "C" fn handler(_sig: libc::c_int, info: *mut libc::siginfo_t, _ctx: *mut 
     unsafe { libc::_exit(86) };
 }
 
+extern "C" fn term_handler(_sig: libc::c_int) {
+    // The orchestrator's watchdog: tell it which run hangs.
+    write_all(b"\nHUNG run=");
+    write_num(RUN_INDEX.load(Ordering::Relaxed));
+    write_all(b"\n");
+    unsafe { libc::_exit(87) };
+}
+
 pub fn install_handler() {
+    unsafe {
+        let mut sa: libc::sigaction = std::mem::zeroed();
+        sa.sa_sigaction = term_handler as *const () as usize;
+        libc::sigemptyset(&mut sa.sa_mask);
+        libc::sigaction(libc::SIGTERM, &sa, std::ptr::null_mut());
+    }
     unsafe {
         // Alternate stack so a stack overflow is reported too.
         let size = 64 * 1024;
@@ -188,7 +202,7 @@ pub fn install_handler() {
         };
         libc::sigaltstack(&ss, std::ptr::null_mut());
         let mut sa: libc::sigaction = std::mem::zeroed();
-        sa.sa_sigaction = handler as usize;
+        sa.sa_sigaction = handler as *const () as usize;
         sa.sa_flags = libc::SA_SIGINFO | libc::SA_ONSTACK;
         libc::sigemptyset(&mut sa.sa_mask);
         libc::sigaction(libc::SIGSEGV, &sa, std::ptr::null_mut());
